@@ -59,6 +59,28 @@ class Pool:
                 self.weapons[w].zero_elevation = U.Radian(raw)
         self.calcs = {c: m.Calculator(_config=dict(cfg)) for c, cfg in CFG.items()}
 
+    def redisplay(self, sname, salt):
+        """re-display every quantity reachable from shot `sname` in another unit of its dimension, switch the preferences"""
+        from pbv import units as UA
+        m = self.m
+        dims = UA.dims()
+        dim_of = {n: r["dim"] for n, r in UA.table().items()}
+
+        def flip(q, k):
+            if q is None or not hasattr(q, "raw_value"):
+                return
+            us = dims[dim_of[q.units.name]]
+            q << UA.unit_enum(us[(us.index(q.units.name) + 1 + k) % len(us)])
+        s = self.shots[sname]
+        qs = [s.look_angle, s.relative_angle, s.cant_angle, s.weapon.sight_height, s.weapon.twist, s.weapon.zero_elevation,
+              s.ammo.mv, s.ammo.powder_temp, s.ammo.dm.weight, s.ammo.dm.diameter, s.ammo.dm.length,
+              s.atmo.altitude, s.atmo.pressure, s.atmo.temperature, s.atmo.powder_temp]
+        for w in s._winds:
+            qs += [w.velocity, w.direction_from, w.until_distance]
+        for k, q in enumerate(qs):
+            flip(q, salt + k)
+        [m.loadMetricUnits, m.loadMixedUnits, m.loadImperialUnits, m.PreferredUnits.defaults][salt % 4]()
+
     def edit_table(self, a):
         """the caller rescales the drag table of ammunition `a` in place (2 % more drag)"""
         for pnt in self.ammos[a].dm.drag_table:
@@ -93,6 +115,9 @@ def do_op(pool: Pool, e):
     m = pool.m
     U = m.Unit
     a = e["a"]
+    if a == "Redisplay":
+        pool.redisplay(e["s"], pool.content["a1"] + pool.content["a2"] + len(e["s"]))
+        return ("Redisplay",)
     if a == "EditTable":
         pool.edit_table(pool.ammo_of[e["s"]])
         return ("EditTable", pool.content[pool.ammo_of[e["s"]]])
@@ -172,7 +197,9 @@ def replay_sessions(chk, behs):
                     raise core.MachineryError("binding: table edit counts differ from the spec's")
             elif new["rest"] != snap["rest"]:
                 chk.violation("C10.ArgumentMutated", k, det)
-            if new["globals"] != snap["globals"]:
+            if e["a"] == "Redisplay":
+                chk.stratum("quantities_redisplayed_and_preferences_switched")
+            elif new["globals"] != snap["globals"]:
                 chk.violation("C10.GlobalsChanged", k, det)
             for w in new["zero"]:
                 changed = new["zero"][w] != snap["zero"][w]
@@ -366,7 +393,7 @@ def run(chk: core.Check, replay=None) -> None:
             "INVARIANT C10_NothingElseMutates\nPROPERTY C10_FailedZeroKeepsZero\n")
     cfg, defs = core.consts(d)
     r = chk.tlc(core.run_tlc("Session", cfg + body, defs=defs, coverage=True), f"Session depth {d['MaxOps']}")
-    for a in ("Fire", "FireRaises", "Zero", "ZeroRaises", "Danger", "Build", "EditTable", "FireBadTable"):
+    for a in ("Fire", "FireRaises", "Zero", "ZeroRaises", "Danger", "Build", "EditTable", "FireBadTable", "Redisplay"):
         if not r.coverage.get(f"Session.{a}"):
             raise core.MachineryError(f"Session.{a} never taken")
     cfg, defs = core.consts(dict(d, DirtRule='"leaks"', MaxOps=2))
@@ -386,7 +413,7 @@ def run(chk: core.Check, replay=None) -> None:
     chk.sample({"history": behs[0]})
     threads_part(chk, thorough, rng)
     chk.require_strata(["op_Fire", "op_FireRaises", "op_Zero", "op_ZeroRaises", "op_Danger", "op_Build", "op_EditTable", "op_FireBadTable",
-                        "table_edited_in_place", "zero_written", "schedule",
+                        "table_edited_in_place", "quantities_redisplayed_and_preferences_switched", "zero_written", "schedule",
                         "free_running"])
     chk.exhaustive = False
     chk.rule.append("TLC-simulated session histories of 6 operations over 3 shots (shared weapon / shared ammunition, with and without "
